@@ -39,7 +39,7 @@ def plan(tier):
 
 
 def n_cases(tier):
-    return 15000 if tier == 'thorough' else 500
+    return 60000 if tier == 'thorough' else 500
 
 
 def one_case(rng, tier):
